@@ -137,6 +137,18 @@ def shapes() -> list[tuple[str, list]]:
     return out
 
 
+def share_label_names(x):  # type: ignore
+    """the labels of different macro bodies get the same names (m3_l0 -> l0): a label is private to its macro and to each
+    expansion, whatever other macros call theirs"""
+    import re
+    if isinstance(x, list):
+        if len(x) == 2 and isinstance(x[0], A) and x[0] in ("label", "jump", "call") and isinstance(x[1], str) and not isinstance(x[1], A):
+            m = re.fullmatch(r"m\d+_l(\d+)", x[1])
+            return [x[0], "l" + m.group(1)] if m else x
+        return [share_label_names(y) for y in x]
+    return x
+
+
 def main() -> None:
     run = Run("C05", "translation_validation")
     run.forbid()
@@ -153,6 +165,9 @@ def main() -> None:
         # single file: definition order permuted
         ms = list(flat[1])
         r.shuffle(ms)
+        if i % 3 == 0:
+            ms = [share_label_names(m) for m in ms]
+            run.count("label names shared between macros")
         cases.append((f"random:{run.seed}:{i}", [flat[0], ms, flat[2]]))
     doms = run_driver([[A("cfg"), srcm_side(p)] for _, p in cases])
     cases = [c for c, d in zip(cases, doms) if d["r"] == "ok"]
